@@ -215,6 +215,50 @@ def c10_jobs(tier):
         j = kj('plan-hist-cap3-pay', 3, MODE=1, PAYLOAD=1, KSTEPS=6); j.unwind = 10; J.append(j)
     return J
 
+NSET = (1, 2, 3, 4, 5, 7, 8, 9, 15, 16, 17, 31, 32, 33, 63, 64, 65, 127, 128, 129, 254, 255)
+
+def c14_jobs(tier):
+    J = []
+    ns = NSET if tier == 'quick' else tuple(range(1, 256))
+    for n in ns:
+        heads = (0, 1) if (tier != 'quick' or n <= 9 or n in (64, 255)) else (n % 2,)
+        for head in heads:
+            stages = 3 if (n <= 65 or tier != 'quick') else 1
+            j = Job('disp-n%d-h%d-s%d' % (n, head, stages), 'dispatch.cpp', dict(NSTATES=n, STATE_LIST=sl(n), HEAD=head, STAGES=stages), unwind=6,
+                    timeout=900 if tier == 'quick' else 3000, mem_gb=16, prop=(1400, 1499), seeds=20)
+            j.weight_gb = 0.3 + n * n * 4.5 / (255 * 255) * (stages / 3.0 + 0.2)
+            J.append(j)
+    return J
+
+def c15_jobs(tier):
+    J = []
+    for k in (0, 1, 2, 3):
+        for pos in (0, 1, 2):
+            ks = 3 if tier == 'quick' else 5
+            J.append(Job('inj-k%d-pos%d' % (k, pos), 'inject.cpp', dict(NINJ=k, POS=pos, KSTEPS=ks), unwind=16, timeout=600 if tier == 'quick' else 2400, prop=(1500, 1599)))
+    return J
+
+def product_job(name, harness, common, a_defs, b_defs, ids, prop, unwind=40, timeout=600, steps=8, nch=12, ntr=28, **kw):
+    j = Job(name, harness, common, unwind=unwind, unwindset={'nondet_fill.0': steps * nch + 2, 'harness.0': ntr + 2, 'harness.1': steps + 2}, timeout=timeout, prop=prop,
+            product=[('A_', a_defs), ('B_', b_defs)], extra_c=['product_rt.c'], **kw)
+    j.c_defines = dict(PR_ID_LEN=ids[0], PR_ID_EVT=ids[1], PR_STEPS=steps, PR_NCH=nch, PR_NTR=ntr)
+    return j
+
+def c16_jobs(tier):
+    J = []
+    T = 600 if tier == 'quick' else 2400
+    K = 2 if tier == 'quick' else 3
+    for mode in (1, 2):
+        for head in (0, 1):
+            J.append(Job('log-faithful-m%d-h%d-k%d' % (mode, head, K), 'logger.cpp', dict(ROLE=0, LOGMODE=mode, HEAD=head, KSTEPS=K), unwind=K + 3, timeout=T, prop=(1600, 1699)))
+    for mode in (1, 2):
+        J.append(product_job('log-product-none-vs-m%d-k%d' % (mode, K), 'logger.cpp', dict(ROLE=1, HEAD=1, KSTEPS=K), dict(LOGMODE=0), dict(LOGMODE=mode),
+                             (1650, 1651), (1600, 1699), unwind=max(K + 3, 6), timeout=T, steps=K + 2, nch=14, ntr=28))
+    if tier != 'quick':
+        J.append(Job('log-faithful-m1-h1-k4', 'logger.cpp', dict(ROLE=0, LOGMODE=1, HEAD=1, KSTEPS=4), unwind=7, timeout=T, prop=(1600, 1699)))
+        J.append(product_job('log-product-m1-vs-m2-k3', 'logger.cpp', dict(ROLE=1, HEAD=0, KSTEPS=3), dict(LOGMODE=1), dict(LOGMODE=2), (1650, 1651), (1600, 1699), unwind=6, timeout=T, steps=5, nch=14, ntr=28))
+    return J
+
 def encoded_functions(job, work, inc):
     """FFSM2 functions reachable from the harness entry point, from the -O0 IR (at -O1 most are inlined into harness())."""
     wd = os.path.join(work, 'fenc-' + re.sub(r'\W', '_', job.name)); os.makedirs(wd, exist_ok=True)
@@ -258,6 +302,20 @@ PROPS = {
                             thorough='capacity 1..8; histories for CAP<=5'),
                 outside='capacity > 8 (no capacity-dependent branch beyond CAP-1 exists in the code); consumption by firing and plan-outcome clearing are checked through the machine in C08/C09',
                 assumptions=['representation invariant I of TaskListT/PlanT as written in harness/tasklist.cpp (inv_tasks, inv_plan): holds for the constructed object (checked) and is preserved by every operation (checked)', 'origins/destinations of stored tasks are valid state ids']),
+    'C14': dict(range=(1400, 1499), jobs=c14_jobs,
+                bounds=dict(quick='generated machines with N in {1,2,3,4,5,7,8,9,15,16,17,31,32,33,63,64,65} (full scenario: activation, immediateChangeTo(k), update, react, query, changeTo(k2)+update, symbolic k,k2) and N in {127,128,129,254,255} (activation, immediateChangeTo(k), update); with/without root head; static_assert(stateId<St<i>>()==i) for every i evaluated by clang',
+                            thorough='every N from 1 to 255, full scenario, with and without root head'),
+                outside='N > 255 is rejected by the library\'s index types'),
+    'C15': dict(range=(1500, 1599), jobs=c15_jobs,
+                bounds=dict(quick='k = 0..3 injections, state at first/middle/last position of a 3-state machine, histories of 3 symbolic API calls (update, react, query, immediateChangeTo) with symbolic requests and entry-guard vetoes',
+                            thorough='same with 5 calls'),
+                outside='k > 3 injections (the wide* recursion is uniform in k); the order inside exitGuard and query deliveries, which the statement does not fix (recorded, not asserted)',
+                assumptions=['for k >= 2 the state class defines every callback itself (a usage constraint of the library\'s name lookup into the repeated FSM::State base)']),
+    'C16': dict(range=(1600, 1699), jobs=c16_jobs,
+                bounds=dict(quick='3-state machine (one state defining every callback, one defining none, one defining a subset), root head with plan callbacks, K=2 symbolic API calls (update, react, query, changeTo, immediateChangeTo, plan edit, succeed) with symbolic callback behaviour; log modes interface and verbose; attach schedule symbolic (from construction, attached at step k, detached at step k, never); product no-log-interface build vs each log mode on the same choice stream',
+                            thorough='K=3..4, plus product interface vs verbose'),
+                outside='recordPlanStatus (never emitted by the library); K beyond the bound',
+                assumptions=['the logger is user code: a recording stub behind the real virtual LoggerInterface']),
     'C11': dict(range=(1100, 1199), jobs=c11_machine_jobs, bounds=dict(quick='N<=4, K<=3', thorough='N<=5, K<=4'), outside='as C01'),
 }
 
